@@ -29,6 +29,7 @@ func (w *World) registerMoreIntrinsics() {
 	w.registerSortQueryIntrinsics()
 	w.registerJSONIntrinsics()
 	w.registerEndpointIntrinsics()
+	w.registerRedisIntrinsics()
 	terms := func(e *Exec, v Value) []*Term {
 		var ts []*Term
 		for _, x := range e.sliceElems(v.(*SliceVal)) {
